@@ -257,7 +257,7 @@ theorem body_sim (c : Cfg) (i T : Nat) (hi : i < c.sigs.length) :
     intro t tracked dcur scur hs hc hl h1 h2
     cases e with
     | tick n d =>
-      simp only [encodeEvents, List.map_cons, parseBody_timeLine, decodeGo, specGo]
+      simp only [encodeEvents, encodeStep, List.map_cons, List.map_nil, List.map_append, List.cons_append, List.nil_append, parseBody_timeLine, decodeGo, specGo]
       simp only [TicksSorted] at hs
       simp only [CommitsOk] at hc
       apply ih _ _ _ _ hs.2 hc hl
@@ -267,7 +267,7 @@ theorem body_sim (c : Cfg) (i T : Nat) (hi : i < c.sigs.length) :
         · rw [(h1 ht).1, (h1 ht).2]
         · exact h2 (by omega)
     | clock j b =>
-      simp only [encodeEvents, specGo, List.map_append]
+      simp only [encodeEvents, encodeStep, specGo, List.map_append]
       simp only [TicksSorted] at hs
       simp only [CommitsOk] at hc
       rw [decodeGo_inert]
@@ -282,7 +282,7 @@ theorem body_sim (c : Cfg) (i T : Nat) (hi : i < c.sigs.length) :
           simp [Cfg.nsigs] at this; omega
         · simp at hit
     | reset j b =>
-      simp only [encodeEvents, specGo, List.map_append]
+      simp only [encodeEvents, encodeStep, specGo, List.map_append]
       simp only [TicksSorted] at hs
       simp only [CommitsOk] at hc
       rw [decodeGo_inert]
@@ -297,7 +297,7 @@ theorem body_sim (c : Cfg) (i T : Nat) (hi : i < c.sigs.length) :
           simp [Cfg.nsigs] at this; omega
         · simp at hit
     | commit vals =>
-      simp only [encodeEvents, specGo, List.map_append]
+      simp only [encodeEvents, encodeStep, specGo, List.map_append]
       simp only [TicksSorted] at hs
       simp only [CommitsOk] at hc
       rw [decodeGo_commit, commitGo_fst _ _ _ _ hl hc.1,
